@@ -167,6 +167,7 @@ pub fn run_plan(scn: &dyn Scenario, plan: &Value, env: &Env) -> RunResult {
     std::fs::create_dir_all(&root).expect("cannot create run root");
     let out = fork_run(cpu, wall, |w| {
         crate::sut::install_panic_hook();
+        crate::sim::set_has_subprocess(scn.has_subprocess());
         let o = scn.execute(plan, &refs, &root, env);
         let _ = w.write_all(serde_json::to_string(&o).unwrap().as_bytes());
     });
@@ -307,11 +308,12 @@ pub fn worker(scn: &dyn Scenario, tier: Tier, base_seed: u64, wid: u64, nworkers
             }
         }
         // determinism canary: re-execute ~1% of the runs and compare log hashes
-        if idx % 97 == 3 && rr.crash.is_none() {
+        // (runs in which the watchdog had to pass the baton on are not exactly repeatable)
+        if idx % 97 == 3 && rr.crash.is_none() && rr.outcome.counters.get("forced_handoffs").copied().unwrap_or(0) == 0 {
             let plan2 = scn.plan(seed, idx, tier, &env);
             let rr2 = run_plan(scn, &plan2, &env);
             sum.canary_checked += 1;
-            if plan2 != plan || rr2.outcome.log_hash != rr.outcome.log_hash {
+            if plan2 != plan || (rr2.outcome.log_hash != rr.outcome.log_hash && rr2.outcome.counters.get("forced_handoffs").copied().unwrap_or(0) == 0) {
                 sum.canary_mismatch.push(idx);
             }
         }
